@@ -12,11 +12,12 @@
      (a merged edge stands for the set of original indices, with the product of their sizes);
      the first one is moreover FALSE of the faithful model when an index lives on one tensor only
      and is not an output (finding compressed-flops-dangling-index, see the Example below);
-   * monotonicity of the tracker's max_size / write follows from the pointwise theorem below by
-     a routine induction that is not written out; for peak_size it additionally needs the
-     invariant total_size = sum of all node sizes (the neighbourhood bookkeeping), not proved. *)
+   Hypotheses that appear below and how they are met: `forall t, In t (inputs n) -> NoDup t` is
+   "no index repeated inside a tensor" (the property's "ordinary network"); `ids_ok chi late n
+   order = true` says that at every step the two operands named by the traversal are two distinct
+   live nodes -- it is evaluated inside Coq for every run the check compares. *)
 From Coq Require Import Lia Permutation.
-From Ctg Require Import Base Net HGraph Compressed BaseFacts NetFacts CompressedFacts.
+From Ctg Require Import Base Net HGraph Compressed BaseFacts NetFacts HGraphFacts CompressedFacts CompressedPeakFacts.
 
 (* which edges are merged / which nodes exist / which identifiers are handed out never depends
    on sizes or on the cap: runs with any two caps stay in lock-step after every prefix *)
@@ -29,11 +30,11 @@ Print Assumptions C20_structure_independent_of_chi.
 (* capped <= less capped, pointwise: same structure and every edge size of the run with the
    smaller cap is at most that of the run with the larger cap (in particular the uncapped
    one), after any traversal prefix, for both compress_late values *)
-Theorem C20_capped_le_uncapped_pointwise_partial : forall chi1 chi2 late n order,
+Theorem C20_capped_le_uncapped_pointwise : forall chi1 chi2 late n order,
   (0 <= chi1 <= chi2)%Z -> (forall e, (0 <= zget e (szd n))%Z) ->
   sz_le (cs_g (ccs_run chi1 late n order)) (cs_g (ccs_run chi2 late n order)).
 Proof. exact run_mono. Qed.
-Print Assumptions C20_capped_le_uncapped_pointwise_partial.
+Print Assumptions C20_capped_le_uncapped_pointwise.
 
 (* capped_le_uncapped at the level of the tracker: the estimated largest tensor and the
    estimated write of the run with the smaller cap never exceed those of the run with the
@@ -44,6 +45,24 @@ Theorem C20_capped_le_uncapped_max_write : forall chi1 chi2 late n order,
   (t_write (cs_tr (ccs_run chi1 late n order)) <= t_write (cs_tr (ccs_run chi2 late n order)))%Z.
 Proof. exact run_mono_max_write. Qed.
 Print Assumptions C20_capped_le_uncapped_max_write.
+
+(* the tracker's bookkeeping is exact: after every prefix of the traversal total_size is the
+   sum of the sizes of all tensors currently alive (the neighbourhood differences taken around
+   every compress account for every size that changes) *)
+Theorem C20_total_size_is_sum_of_node_sizes : forall chi late n order,
+  (forall t, In t (inputs n) -> NoDup t) -> ids_ok chi late n order = true ->
+  wf_hg (cs_g (ccs_run chi late n order)) /\
+  t_total (cs_tr (ccs_run chi late n order)) = total (cs_g (ccs_run chi late n order)).
+Proof. exact run_total. Qed.
+Print Assumptions C20_total_size_is_sum_of_node_sizes.
+
+(* ... hence peak_size is monotone in the cap as well *)
+Theorem C20_capped_le_uncapped_peak : forall chi1 chi2 late n order,
+  (0 <= chi1 <= chi2)%Z -> (forall e, (0 <= zget e (szd n))%Z) ->
+  (forall t, In t (inputs n) -> NoDup t) -> ids_ok chi1 late n order = true ->
+  (t_peak (cs_tr (ccs_run chi1 late n order)) <= t_peak (cs_tr (ccs_run chi2 late n order)))%Z.
+Proof. exact run_mono_peak. Qed.
+Print Assumptions C20_capped_le_uncapped_peak.
 
 (* ... hence every tensor (node) is at most as large *)
 Theorem C20_node_sizes_monotone : forall g1 g2 i, sz_le g1 g2 ->
